@@ -84,7 +84,10 @@ def configs():
                                                     query=IntraWordFilter(mergewords=False, mergenums=False))
                                       | LowercaseFilter()), dict(NP, quoted="always")),
         "biword": (text(RegexTokenizer() | LowercaseFilter() | BiWordFilter(), phrase=False), NP),
-        "shingle": (text(RegexTokenizer() | LowercaseFilter() | ShingleFilter(2), phrase=False), NP),
+        # (a shingle's offsets span its words: analysing that slice gives the shingle back - also the single short
+        # shingle of a text with fewer words than the shingle size)
+        "shingle": (text(RegexTokenizer() | LowercaseFilter() | ShingleFilter(2), phrase=False), dict(NP, offsets=True)),
+        "shingle4": (text(RegexTokenizer() | LowercaseFilter() | ShingleFilter(4), phrase=False), dict(NP, offsets=True)),
         "metaphone-combined": (text(RegexTokenizer() | LowercaseFilter() | DoubleMetaphoneFilter(combine=True)), NP),
         "tee-reverse": (text(RegexTokenizer() | TeeFilter(PassFilter(), ReverseTextFilter()) | LowercaseFilter()), NP),
         "ngramfilter": (text(RegexTokenizer() | LowercaseFilter() | NgramFilter(2, 3)),
